@@ -1,6 +1,9 @@
 /-
   C16 — Heap construction lays out header and content exactly; cloning is the identity.
 -/
+import Mb2.Props.FnsTblTags
+import Mb2.Props.FnsTblElf
+import Mb2.Props.FnsTblEfi
 import Mb2.Props.FnsBoxed
 import Mb2.Props.FnsCast
 import Mb2.Build
